@@ -290,3 +290,29 @@ pub fn collect_views(cfg: &Config, scope: Option<Scope>) -> Vec<View> {
     let ranges = hand_ranges(cfg);
     evaluator(cfg, &ranges, scope).into_iter().map(|sd| view(&sd)).collect()
 }
+
+/// Compact, comparable trace of everything a showdown exposes.
+#[derive(Clone, Debug, PartialEq, Eq, Hash)]
+pub struct TraceKey {
+    pub board: [u8; 5],
+    pub players: Vec<(u8, u8, u16, bool)>,
+    pub prob_bits: u32,
+    pub winner_len: u8,
+}
+
+pub fn trace_key(sd: &Showdown) -> TraceKey {
+    let b = sd.board();
+    TraceKey {
+        board: [cid(&b[0]), cid(&b[1]), cid(&b[2]), cid(&b[3]), cid(&b[4])],
+        players: sd
+            .players()
+            .iter()
+            .map(|p| {
+                let h = pid_of(&p.hole_cards());
+                (h.0, h.1, p.hand().power_index(), p.is_winner())
+            })
+            .collect(),
+        prob_bits: sd.probability().to_bits(),
+        winner_len: sd.winner_len(),
+    }
+}
